@@ -70,6 +70,20 @@ def transport_errors_rule(rep, prog, cfg):
                         best = fb if best is None or len(fb.blocks) > len(best.blocks) else best
                 if best is not None:
                     bodies["%s/%s" % (fl_, nm)] = best
+    # the send-then-receive shorthands: the result of the send (a protocol error that wraps the io::Error) must reach the caller
+    # before anything is awaited from the server
+    shorthand = set()
+    for nm in ("command", "command_list"):
+        for fl_, owner in (("blocking", "Connection"), ("async", "AsyncConnection")):
+            b0 = body_by_name(prog, "mpd_protocol::connection::%s::%s" % (owner, nm))
+            if len(b0) == 1:
+                best = None
+                for fb in family(prog, b0[0]):
+                    if any(n.endswith("::send") or n.endswith("::send_list") for bb, t in fb.calls() for n in callee_names(t)):
+                        best = fb if best is None or len(fb.blocks) > len(best.blocks) else best
+                if best is not None:
+                    bodies["%s/%s" % (fl_, nm)] = best
+                    shorthand.add("%s/%s" % (fl_, nm))
     from .C10 import READS, READS_EXT
     READS.bind(prog)
     for hn in sorted(x for x in READS if x not in READS_EXT):
@@ -83,7 +97,8 @@ def transport_errors_rule(rep, prog, cfg):
         origins = []
         for i, l in enumerate(b.locals):
             ty = l["ty"]
-            if not (ty.startswith("core::result::Result<") and ty.rstrip(">").endswith("std::io::error::Error")):
+            if not (ty.startswith("core::result::Result<") and (ty.rstrip(">").endswith("std::io::error::Error") or
+                                                             (name in shorthand and ty.rstrip(">").endswith("MpdProtocolError") and ty.startswith("core::result::Result<(),")))):
                 continue
             defs = [s2 for _, _, s2 in b.stmts() if s2["k"] == "assign" and s2["place"]["l"] == i and not s2["place"]["p"]]
             cdefs = [t for _, t in b.calls() if t["dest"]["l"] == i and not t["dest"]["p"]]
@@ -252,9 +267,15 @@ def run(rep, progs, tier):
     rep.rule("C08.raii", "no mem::forget / ManuallyDrop / Box::leak / Rc / Arc of loop-owned resources")
     rep.rule("C08.no-panic", "no unaudited panic site in loop functions and Client send paths; channel failures -> ConnectionClosed")
     rep.trusted = ["rustc MIR construction", "mpdfacts exporter", "tokio drop semantics of oneshot/mpsc", "audited panic reasons (text)"]
+    rep.rule("C08.malformed", "imported from C09 (owner of the protocol layer's error classification): a parse error that is not 'incomplete' ends "
+             "receive() with InvalidMessage and is never retried — otherwise a malformed reply on a live connection is waited on for ever and no "
+             "request resolves")
     for cfg, prog in progs.items():
         one(rep, prog, cfg)
         transport_errors_rule(rep, prog, cfg)
+        from .C09 import invalid_rule
+        with rep.importing("C09.invalid", "C08.malformed"):
+            invalid_rule(rep, prog, cfg)
 
 
 def one(rep, prog, cfg):
